@@ -13,9 +13,11 @@ CONFIG = dict(
         "capacity / status / count and exposes waiting_wakers.len() and entries_before_wake)",
     ],
     assumptions=QUEUE_ASSUMPTIONS + [
-        "`bounded amount of writer progress` is proved as a bound on the number of handle_waiting_wakers calls (drain passes), each of which "
-        "consumed >= 32 entries or saw the ring empty: at most 2*(cap/32+1) passes between request and wake-up, for every producer behaviour "
-        "and every clock; wall-clock bounds are not claimed (a pass ends at the flush-interval deadline)",
+        "`bounded amount of writer progress` is proved (a) unconditionally as a bound on the number of handle_waiting_wakers calls (drain "
+        "passes, each of which consumed >= 32 entries or saw the ring empty): at most 2*(cap/32+1) between request and wake-up, and (b) as a "
+        "bound on writer steps, 144*(cap/32+1) + 71 + pending requests + requests made meanwhile, under the explicit hypotheses that the "
+        "queue stays live (no shutdown request, a queue handle exists) and every flush-interval deadline asked about has passed; wall-clock "
+        "bounds are not claimed",
         "a request is `before` an append when its channel send precedes the force_push in the linearisation (the scheduled runs know that "
         "order; the unscheduled runs only use the requester's own earlier appends)",
     ],
